@@ -37,6 +37,10 @@ POOL = {
     ),
     "h2co": ([8, 6, 1, 1], [[0.0, 0.0, 1.2050], [0.0, 0.0, 0.0], [0.9429, 0.0, -0.5876], [-0.9429, 0.0, -0.5876]]),
     "hcn": ([7, 6, 1], [[0.0, 0.0, 1.156], [0.0, 0.0, 0.0], [0.0, 0.0, -1.064]]),
+    "hcl": ([17, 1], [[0.0, 0.0, 0.0], [1.275, 0.0, 0.0]]),
+    "h2s": ([16, 1, 1], [[0.0, 0.0, 0.0], [1.336, 0.0, 0.0], [-0.0466, 1.3352, 0.0]]),
+    "lih": ([3, 1], [[0.0, 0.0, 0.0], [1.595, 0.0, 0.0]]),
+    "sih4": ([14, 1, 1, 1, 1], [[0.0, 0.0, 0.0], [0.8544, 0.8544, 0.8544], [-0.8544, -0.8544, 0.8544], [-0.8544, 0.8544, -0.8544], [0.8544, -0.8544, -0.8544]]),
     "c2h4": (
         [6, 6, 1, 1, 1, 1],
         [
@@ -183,7 +187,7 @@ def _child_incarnation(cfg, workdir, inc, fault, mode, opts):
         MDm.esdriver = stub.StubES
     prefix = os.path.join(workdir, "t")
     iosim.Sim.reset(os.path.join(workdir, f"events.{inc}.log"), fault=fault, xyzbuf=cfg.get("xyzbuf"))
-    tshim = iosim.install(io_seam=opts.get("io_seam", True), line_clock=opts.get("line_clock", False))
+    tshim = iosim.install(io_seam=opts.get("io_seam", True), line_clock=opts.get("line_clock", False), rng_seam=opts.get("rng_seam", False))
     hook = opts.get("child_hook")
     ctx = {}
     if hook:
